@@ -565,10 +565,12 @@ def gen_part_metrics(rnd):
     for r in ranks:
         if r in chosen:
             n = rnd.choice([1, 2])
-            kind = rnd.choice(["shape", "occ", "occ"])
+            kind = rnd.choice(["shape", "occ", "occ", "mixed"])
+            if kind == "mixed":
+                n = 2            # a shape split with an occupancy split beneath it
             st = []
             for i in range(n):
-                if kind == "shape":
+                if kind == "shape" or (kind == "mixed" and i == 0):
                     if rnd.random() < 0.5:
                         nm = "%s%d" % (r, n - i - 1)
                         syms[nm] = rnd.randint(2, 4)
